@@ -137,6 +137,8 @@ fn main() {
                     }
                 }
                 "C14mut" => writeln!(out, "{}", c14::mutate(n)).unwrap(),
+                // n = 0: every deep / long document; n = k + 1: only the k-th
+                "C14deep" => writeln!(out, "{}", c14::deep(if n == 0 { usize::MAX } else { n - 1 })).unwrap(),
                 "C17file" => writeln!(out, "{}", c14::linkdir_channel()).unwrap(),
                 "C19meta" => writeln!(out, "{}", wire::from_meta_checks(n)).unwrap(),
                 "C09bits" => writeln!(out, "{}", lifecycle::Ctx::new(&common::family()).all_bits(n)).unwrap(),
